@@ -26,6 +26,10 @@ LEVEL = {
          "exactly representable steps (tick >= 1/8 s); pure float-rounding drift for non-representable steps is not decided", TECH % ("", "")),
  "C07": ("model_checking", "6 C07", "EndedIff / EndedStable / TerminalWhenEnded / NeverEndedIfInfinite model-checked over all histories incl. advances landing exactly on the total duration; AfterTotalConstant unbounded in Apalache; is_ended compared after every replayed operation.",
          "as C04; total durations on the exact tick grid", TECH % (" and Apalache", "")),
+ "C18": ("model_checking", "6 C18", "Every clause of C18 is an action property of the animate step in Bevy.tla, model-checked over all schedules x system orders (phase-skip defect is a negative control); TLC-enumerated and random schedules are run in a real App and TLC validates the logs; component contents are re-evaluated with the real timelines at the predicted evaluation points.",
+         "tick = 1/8 s; 6 entity configurations + random ones from a pool of 10 timelines; component values judged via the real Timeline::update", TECH % ("", " and by TLC validating traces recorded from a real Bevy App (leg B)")),
+ "C19": ("model_checking", "6 C19", "Select/chain steps carry the C19 clauses as action properties (untyped-event defect is a negative control); real App logs with selector, chain (incl. cycles) and one or two animated component types are validated by TLC with the system order left open.",
+         "as C18; chain judged by the governed animator's state (see DESIGN)", TECH % ("", " and by TLC validating traces recorded from a real Bevy App (leg B)")),
 }
 NA = {}
 for i in range(1, 21):
